@@ -302,6 +302,18 @@ pub struct WorkPt {
 }
 pub struct Work;
 pub const W: f64 = 100.0;
+/// work constant per solver: six times the worst factor observed on the repaired tree over the thorough lattice
+/// (adams3 0.56, adams5 1.3, rk45 4.2, bdf6 9.5, rk23 14.3, bdf2 15.2), capped by W
+pub fn w_of(s: Solver) -> f64 {
+    match s {
+        Solver::Adams3 => 4.0,
+        Solver::Adams5 => 8.0,
+        Solver::RK45 => 25.0,
+        Solver::BDF6 => 60.0,
+        Solver::RK23 => 90.0,
+        _ => W,
+    }
+}
 impl Check for Work {
     type P = WorkPt;
     fn name(&self) -> &'static str {
@@ -361,7 +373,8 @@ impl Check for Work {
         let (m1, _) = prob.derivative_scales(t0, t1);
         let pw = p.solver.work_order();
         let tt = t1 - t0;
-        let bound = W * (tt * l * (m1.max(1.0) / p.tol).powf(1.0 / pw) + tt / dtmax + 64.0);
+        let w = w_of(p.solver);
+        let bound = w * (tt * l * (m1.max(1.0) / p.tol).powf(1.0 / pw) + tt / dtmax + 64.0);
         let out = run_real(p.solver, &prob, &cfg, DimMode::Static, (4.0 * bound) as u64);
         let subj = subject(p.solver);
         let ctx = || format!("{:?} (L={:.3}, T={:.3}, dtmax={:.3e})", p, l, tt, dtmax);
@@ -375,10 +388,10 @@ impl Check for Work {
                 if last.map(|t| t.to_bits()) != Some(t1.to_bits()) {
                     o.viol(&subj, "completes-without-stopping-early", format!("{}: {} points, last time {:?}, end {:?}", ctx(), out.items.len(), last, t1));
                 }
-                let f = out.calls as f64 / (bound / W);
+                let f = out.calls as f64 / (bound / w);
                 o.metric(&format!("{}-work-factor", p.solver.name()), f);
                 if out.calls as f64 > bound {
-                    o.viol(&subj, "work-within-factor-of-T*tol^(-1/p)", format!("{}: {} derivative calls, bound {:.0} (factor {:.1} instead of <= {})", ctx(), out.calls, bound, f, W));
+                    o.viol(&subj, "work-within-factor-of-T*tol^(-1/p)", format!("{}: {} derivative calls, bound {:.0} (factor {:.1} instead of <= {})", ctx(), out.calls, bound, f, w));
                 }
             }
             End::Err(k, m) => {
@@ -390,7 +403,7 @@ impl Check for Work {
             }
             e => o.viol(&subj, "completes-without-reporting-an-error", format!("{}: {:?}", ctx(), e)),
         }
-        let f = out.calls as f64 / (bound / W);
+        let f = out.calls as f64 / (bound / w);
         o.sig = format!("{}|{}|factor{}", p.solver.name(), end_name(&out), if f < 5.0 { "<5" } else if f < 25.0 { "<25" } else if f < 100.0 { "<100" } else { ">=100" });
         o
     }
@@ -645,7 +658,7 @@ pub fn main_c04(mut r: Report) -> ! {
     r.finish()
 }
 pub fn main_c05(mut r: Report) -> ! {
-    r.assumptions = vec![format!("W = {}; bound W (T L (max(1,|y'|)/tol)^(1/p) + T/dtmax + 64) with p = 4 (RK45, Adams5), 2 (RK23, Adams3, BDF2), 6 (BDF6); one-sided", W)];
+    r.assumptions = vec![format!("bound W_s (T L (max(1,|y'|)/tol)^(1/p) + T/dtmax + 64) with p = 4 (RK45, Adams5), 2 (RK23, Adams3, BDF2), 6 (BDF6) and W_s = 4 (Adams3), 8 (Adams5), 25 (RK45), 60 (BDF6), 90 (RK23), {} (BDF2): six times the worst factor observed per solver; one-sided", W)];
     r.run(&Work);
     r.finish()
 }
